@@ -23,7 +23,7 @@ from .. import parserlab as lab
 from .. import factlab as fl
 
 LEVEL = "exploration"
-RULE = ("histories over a pool of 57 scripts (valid with differing requires, invalid, "
+RULE = ("histories over a pool of 60 scripts (valid with differing requires, invalid, "
         "truncated mid-string-list / mid-test-list / mid-block / mid-command, ending in "
         "comments, with name/description hash comments, scripts that name a comparator / "
         "capability / identifier which another script uses in a different role) and 14 factory steps + 1 commands-API step (definitions "
@@ -38,7 +38,9 @@ ASSUMPTIONS = [
     "a forked child of an import-only process is state-identical to a fresh interpreter "
     "(cross-checked per run on a sample against real subprocess interpreters)",
     "not demanded: stale error/error_pos attributes after a successful parse",
-    "add_commands is not part of histories (C20 owns it)",
+    "add_commands is not part of histories (C20 owns it); one derived command class "
+    "(redirectx, a subclass of the stock redirect with one more required argument) is "
+    "registered in every worker at start-up, before any history",
 ]
 FLOORS = {
     "quick": {"history-steps": 35000, "histories": 12000, "baseline-crosschecks": 20,
@@ -48,6 +50,16 @@ FLOORS = {
                  "deferred-loads": 10000},
 }
 SHARD_TIMEOUT = {"quick": 600, "thorough": 3000}
+
+# one custom command whose class DERIVES from a stock command's class and takes one more
+# required argument, registered in every worker before anything else happens: histories then
+# use the base command (in scripts or through the factory) before or after the derived one
+class RedirectxCommand(lab.sl_commands.RedirectCommand):
+    args_definition = list(lab.sl_commands.RedirectCommand.args_definition) + [
+        {"name": "note", "type": ["string"], "required": True}]
+
+
+lab.sl_commands.add_commands(RedirectxCommand)
 
 ALL = gen.ALL_EXT_PREAMBLE.decode()
 SCRIPTS = [
@@ -112,6 +124,9 @@ SCRIPTS = [
     'keep :foobar;',
     # text that has no UTF-8 encoding (a lone surrogate, as read with surrogateescape): handed
     # to parse() as str; whatever happens must not depend on what the Parser did before
+    'redirect "postmaster@example.org";',
+    'redirectx "postmaster@example.org" "fyi";',
+    'redirectx "a@example.org";',
     'keep "\udcff";',
     '\n\nkeep;\n\udcc3\udca9 foobar;',
 ]
